@@ -399,6 +399,7 @@ pub fn run_program(
 ) -> String {
     let env = simfony::dummy_env::dummy();
     let commit_cmr = compiled.commit().cmr();
+    let wit_copy = wit.clone();
     let satisfied = if pruned {
         compiled.satisfy_with_env(wit, Some(&env))
     } else {
@@ -439,6 +440,22 @@ pub fn run_program(
             }
         }
         facts.push(format!("twins={}", if twins { "yes" } else { "no" }));
+        // the dependency's pruner applied to simfony's own UNPRUNED output: if that alone reproduces the returned program
+        // byte for byte, whatever is wrong with it was made inside simplicity::RedeemNode::prune
+        let dep = match compiled.satisfy(wit_copy) {
+            Ok(u) => match u.redeem().prune(&env) {
+                Ok(p) => {
+                    if p.encode_to_vec() == redeem.encode_to_vec() {
+                        "same"
+                    } else {
+                        "diff"
+                    }
+                }
+                Err(_) => "err",
+            },
+            Err(_) => "sat-err",
+        };
+        facts.push(format!("depprune={}", dep));
     }
     let (prog_bytes, wit_bytes) = redeem.encode_to_vec();
     let decoded = RedeemNode::<Elements>::decode(
@@ -531,6 +548,19 @@ fn apipaths_cmd(text: &str, args: &Sexp, wit: &Sexp, dbg: bool) -> Result<String
         },
         Err(_) => "err".to_string(),
     };
+    // one template object used several times: first with the other flag, then with this one (nothing may stick to the object)
+    let a3 = match TemplateProgram::new(text) {
+        Ok(t) => {
+            let _ = t.instantiate(Arguments::from(name_values(args)?), !dbg);
+            let _ = t.instantiate(Arguments::default(), !dbg);
+            match t.instantiate(Arguments::from(name_values(args)?), dbg) {
+                Ok(c) => enc_commit(&c),
+                Err(_) => "err".to_string(),
+            }
+        }
+        Err(_) => "err".to_string(),
+    };
+    let a2 = if a2 == a3 { a2 } else { format!("{}/reused:{}", a2, a3) };
     let r1 = match SatisfiedProgram::new(text, Arguments::from(name_values(args)?), WitnessValues::from(name_values(wit)?), dbg) {
         Ok(s) => enc_redeem(&s),
         Err(_) => "err".to_string(),
